@@ -24,6 +24,7 @@ RULE = ("simple graphs without isolated vertices: atlas graphs with <= 6 vertice
         "wheels, K_n n<=8, books, rings of K4), and every 4th (quick) / 10th (thorough) case a large sparse graph (union of 8..24 mostly edge-disjoint cliques plus an "
         "overlapping cluster, 20..70 vertices, or G(n,p) with n<=40, p<=.15); m0 in 2..omega+1; the bound is set before, after, or between the edge insertions, or twice, or changed after a read-only look at the candidate list, or the object is reused after a first cover; schedules first/last/3 seeds + exhaustive tie-break trees up to 64 leaves; "
         "non-trivial = a maximal clique larger than m0 overlapping another one, or >= 1 tie-break with >= 2 candidates; distinct = SHA-1 of (graph, m0)")
+RULE += ("; rounds k-l added: " + '20% of the small graphs on unusual numeric labels: signed ints (-1 and -2 share a hash), multiples of 2**61-1 (all hash to 0), numpy float64 half-integers')
 ASSUMPTIONS = ["vertices are ints; order of the returned list and of vertices inside a clique is ignored",
                "progress bound: each greedy step must cover a new edge, so more than |E| tie-break calls is a violation"]
 HEADLINE = ["pairs", "runs", "edges_covered_exactly_once", "tie_breaks", "tie_breaks_multi", "exhaustive_trees", "tree_leaves", "trees_truncated",
